@@ -172,8 +172,8 @@ prop("C15",
      min_nontrivial=3000)
 
 prop("C16",
-     quick=[rapid("TestC16", 20000, shards=4), plain("TestSizeSweep", shards=4), plain("TestProducerConsumerGrid", shards=4), plain("TestNestedCompositions")],
-     thorough=[rapid("TestC16", 600000, shards=16), plain("TestSizeSweep", shards=4), plain("TestProducerConsumerGrid", shards=4), plain("TestNestedCompositions")],
+     quick=[rapid("TestC16", 20000, shards=4), plain("TestSizeSweep", shards=4), plain("TestProducerConsumerGrid", shards=4), plain("TestNestedCompositions"), plain("TestC10ByExprKeys")],
+     thorough=[rapid("TestC16", 600000, shards=16), plain("TestSizeSweep", shards=4), plain("TestProducerConsumerGrid", shards=4), plain("TestNestedCompositions"), plain("TestC10ByExprKeys")],
      rule="rapid: G-doc documents (numbers |x| <= 1e15) x (a) every function with closure-threatening arguments (empty arrays/objects/strings, 'inf', 'nan', 'Infinity', '1e999', '0x1p4', empty projections/slices) in 5 contexts, (b) document-aware all-function expressions. Precondition: the expression is a sentence of the strict grammar (expression references only as function arguments). Oracle (validity predicate): on success the result consists only of nil, bool, finite float64, string, non-nil []interface{} and non-nil map[string]interface{}, json.Marshal succeeds and json.Unmarshal of the text deep-equals the result. Non-trivial: Search succeeded with a non-null result; classes: result type, top-level node, top-level function.",
      technique="validity predicate (type walk + JSON marshal/unmarshal round trip) over generated expressions",
      level_text="Closure is a predicate on every reachable result; no reference needed.",
